@@ -77,6 +77,10 @@ def bindGen (x : Nat) (t : Term) : Gen := fun k w =>
   let (w', r) := k { w with b := bind w.b x t }
   ({ w' with b := unbind w'.b x }, r)
 
+/-- Depth to which the ghost check below dereferences: a constant, so that the ghost flag does not
+    depend on the fuel of the run (fuel monotonicity, `Yld.Proofs.FuelMono`). -/
+def cycFuel : Nat := 20000
+
 /-- Ghost bookkeeping: remember that `x := t` created a cyclic term. -/
 def markCyc (f : Nat) (x : Nat) (t : Term) (w : World) : World :=
   match resolve w.b f t with
@@ -98,8 +102,8 @@ def unify : Nat → Term → Term → Gen
     | some a1, some a2 =>
       match a1, a2 with
       | .var x, .var y => if x = y then k w else bindGen x (.var y) k w
-      | .var x, t => bindGen x t k (markCyc (f+1) x t w)
-      | t, .var y => bindGen y t k (markCyc (f+1) y t w)
+      | .var x, t => bindGen x t k (markCyc cycFuel x t w)
+      | t, .var y => bindGen y t k (markCyc cycFuel y t w)
       | .atom s, .atom s' => if s = s' then k w else (w, none)
       | .int i, .int j => if i = j then k w else (w, none)
       | .fn g as, .fn g' as' =>
